@@ -412,6 +412,7 @@ func (p c05) Run(c *core.Ctx) {
 	cfg.MaxStmts = 14
 	cfg.MaxNodes = 3
 	cfg.MaxReaders = 1
+	cfg.DupTitles = true // a title defined twice is syntactically fine (the first definition is the node of that name)
 	prog := gen.Flow(r, cfg)
 	lay := hast.RandomLayout(r.Fork())
 	base := hast.Render(prog, lay)[0]
